@@ -8,26 +8,38 @@ Theorem C07_invariant_reachable :
   forall (t : text) (ops : list uop), Inv t (urun t ops).
 Proof. exact inv_reachable. Qed.
 
-(** (2) [u] after a change returns exactly the text before that change ... *)
+(** (2) [u] after a change that stands alone (x, d, r, ~, J, p, :s, ...) returns exactly the text before that
+    change, from any state: an [r] right after another [r], or after an insert session, is not folded into it ... *)
 Theorem C07_undo_prev :
   forall (s : ustate) (t : text),
-    t <> u_buf s -> u_buf (ustep (ustep s (OCmd None t false)) OUndo) = u_buf s.
+    t <> u_buf s -> u_buf (ustep (ustep s (OCmd None t KPlain)) OUndo) = u_buf s.
 Proof. exact undo_after_change. Qed.
 
-(** ... and an insert session (consecutive character inserts) is one change. *)
+(** ... such a command leaves no open record behind ... *)
+Theorem C07_plain_closes :
+  forall (s : ustate) (t : text), top_merging (u_undo (ustep s (OCmd None t KPlain))) = false.
+Proof. exact plain_closes. Qed.
+
+(** ... and an insert session is one change: the command that starts it (the first typed character, or c / o / O
+    with what they remove or open) and every character typed after it. *)
 Theorem C07_undo_insert_session :
-  forall (s : ustate) (t : text) (ts : list text),
-    top_merging (u_undo s) = false -> t <> u_buf s ->
-    u_buf (ustep (fold_left (fun s t => ustep s (OCmd None t true)) ts (ustep s (OCmd None t true))) OUndo)
+  forall (s : ustate) (t : text) (k : ckind) (ts : list text),
+    sessiony k = true -> (continues k = true -> top_merging (u_undo s) = false) -> t <> u_buf s ->
+    u_buf (ustep (fold_left (fun s t => ustep s (OCmd None t KContinues)) ts (ustep s (OCmd None t k))) OUndo)
     = u_buf s.
 Proof. exact undo_insert_session. Qed.
+
+(** c / o / O that change nothing do not reopen the record of an earlier change. *)
+Theorem C07_opens_nothing_keeps_closed :
+  forall s : ustate, top_merging (u_undo (ustep s (OCmd None (u_buf s) KOpens))) = false.
+Proof. exact opens_nothing_keeps_closed. Qed.
 
 (** ... and so is a block insert: the typed text [t] plus the copies [p] that
     leaving the session makes on the other lines of the block. *)
 Theorem C07_undo_block_insert :
   forall (s : ustate) (t p : text),
     top_merging (u_undo s) = false -> t <> u_buf s ->
-    u_buf (ustep (ustep (ustep s (OCmd None t true)) (OCmd (Some p) p false)) OUndo) = u_buf s.
+    u_buf (ustep (ustep (ustep s (OCmd None t KContinues)) (OCmd (Some p) p KPlain)) OUndo) = u_buf s.
 Proof. exact undo_block_insert. Qed.
 Print Assumptions C07_undo_block_insert.
 (** (3) Enough [u]s return the original input. *)
@@ -55,19 +67,30 @@ Proof. exact no_new_states. Qed.
 (** (6) A new change drops the redo history: [<c-r>] right after a command
     that is not [u] leaves the text alone. *)
 Theorem C07_redo_after_change_noop :
-  forall (s : ustate) (t : text) (ci : bool),
-    u_buf (ustep (ustep s (OCmd None t ci)) ORedo) = t.
+  forall (s : ustate) (t : text) (k : ckind),
+    u_buf (ustep (ustep s (OCmd None t k)) ORedo) = t.
 Proof. intros. reflexivity. Qed.
 
 Example C07_example :
-  let ops := [OCmd None (T "ello") false; OCmd None (T "aello") true; OCmd None (T "abello") true;
-              OCmd None (T "abello") false; OUndo; OUndo; ORedo] in
+  let ops := [OCmd None (T "ello") KPlain; OCmd None (T "aello") KContinues; OCmd None (T "abello") KContinues;
+              OCmd None (T "abello") KPlain; OUndo; OUndo; ORedo] in
   u_buf (urun (T "hello") ops) = T "ello" /\ length (u_redo (urun (T "hello") ops)) = 1%nat.
 Proof. vm_compute. split; reflexivity. Qed.
+
+(** rx ry u gives back the text after rx; o ab <esc> u gives back the text before o *)
+Example C07_example_r_r :
+  u_buf (urun (T "hello") [OCmd None (T "xello") KPlain; OCmd None (T "yello") KPlain; OUndo]) = T "xello".
+Proof. vm_compute. reflexivity. Qed.
+Example C07_example_open_line :
+  u_buf (urun (T "hi") [OCmd None (T "i") KPlain; OCmd None (T "i_") KOpens; OCmd None (T "i_a") KContinues;
+                        OCmd None (T "i_ab") KContinues; OCmd None (T "i_ab") KPlain; OUndo]) = T "i".
+Proof. vm_compute. reflexivity. Qed.
 
 Print Assumptions C07_invariant_reachable.
 Print Assumptions C07_undo_prev.
 Print Assumptions C07_undo_insert_session.
+Print Assumptions C07_plain_closes.
+Print Assumptions C07_opens_nothing_keeps_closed.
 Print Assumptions C07_undo_all.
 Print Assumptions C07_redo_inverse.
 Print Assumptions C07_no_new_states.
